@@ -44,7 +44,7 @@ ASSUMPTIONS = [
     "unspecified: containers under an Any annotation, object.__setattr__ / vars() tricks, NaN attributes, passing MISSING explicitly for an attribute with another default, direct __eq__ calls",
     "equality of attribute values is Python's == on the stored values",
 ]
-MINIMUMS = {"lookalike_updates": 300, "monitor:frozen": 5000, "monitor:no-aliasing": 1500, "monitor:inner-immutable": 2500, "monitor:updated": 5000, "monitor:copy": 3000, "monitor:equality": 10000, "aliasing_attempts_on_nonempty": 1200}
+MINIMUMS = {"lookalike_updates": 300, "monitor:frozen": 5000, "monitor:no-aliasing": 1500, "monitor:inner-immutable": 2500, "monitor:updated": 5000, "monitor:copy": 3000, "monitor:equality": 10000, "aliasing_attempts_on_nonempty": 1200, "annotations_inside_a_wrapper": 300, "recursive_states_declared_inside_wrappers": 12}
 JOBS = {"quick": 4, "thorough": 16}
 LEVEL_TEXT = (
     "Seeded classes over the whole annotation vocabulary (plus recursive, Self-referential, generic-specialised, Missing-typed and defaulted ones) are instantiated and attacked with "
@@ -63,6 +63,21 @@ class Node(State):
 
 class Tree(State):
     value: int
+    kids: Sequence[Self] = ()
+
+class TreeF(State):
+    value: int
+    following: Final[Self | None] = None
+    kids: Final[Sequence[Self]] = ()
+
+class TreeA(State):
+    value: int
+    following: Annotated[Self | None, "the next one"] = None
+    kids: Annotated[Sequence[Self], "children"] = ()
+
+class TreeP(State):
+    value: int
+    following: Self | None = None
     kids: Sequence[Self] = ()
 
 class WithMissing(State):
@@ -268,6 +283,14 @@ class Attack:
                 lines[1 + ai] = new + lines[1 + ai][len(old):]
                 lines[0] = f"class {name}[T: {A.render(bound)}](State):"
                 self.R.count("classes_with_unspecialised_bounded_type_variable")
+        for i, (an, _, _) in enumerate(attrs):
+            if (self.n + i) % 8 in (0, 1):
+                # wrappers that say something about the attribute, not about its values: the annotation means what it means without them
+                head, sep, dflt = lines[1 + i].partition(" = _d_")
+                ann = head[len(f"    {an}: "):]
+                ann = f"Final[{ann}]" if (self.n + i) % 8 == 0 else f"Annotated[{ann}, 'documented']"
+                lines[1 + i] = f"    {an}: {ann}{sep}{dflt}"
+                self.R.count("annotations_inside_a_wrapper")
         base_src = ""
         if rng.random() < 0.2 and not lines[0].startswith(f"class {name}["):
             # the class narrows attributes it inherits: a base declares them with a wider annotation (Any / a bare container / optional),
@@ -686,6 +709,27 @@ def fixed_cases(atk: Attack, rng: random.Random) -> None:
             except BaseException as exc:  # noqa: BLE001
                 ok, detail, where = False, repr(exc), {"has_mapping": False, "kind": "raised", "op": op, "error": type(exc).__name__}
             atk.R.monitor("copy", ok, where=where, detail=f"{op} of recursive Node: {detail}", case={"source": "<fixed Node>"})
+        # the same recursive shape declared plainly / inside Final[...] / inside Annotated[...]: the wrapper says something about the
+        # attribute, the values are checked, converted and re-validated all the same
+        for T in (ns["TreeP"], ns["TreeF"], ns["TreeA"]):
+            wsrc = {"source": f"<fixed {T.__name__}>"}
+            kids_arg = [T(value=2), T(value=3)]
+            t = T(value=1, following=T(value=5), kids=kids_arg)
+            snap = atk.snapshot(t)
+            kids_arg.append(T(value=9))
+            atk.R.count("aliasing_attempts_on_nonempty")
+            atk.R.count("recursive_states_declared_inside_wrappers", T.__name__ != "TreeP")
+            atk.R.monitor("no-aliasing", atk.snapshot(t) == snap, where={"has_mapping": False, "kind": "argument-mutation-reflected", "container": "list", "op": "append", "declared": T.__name__},
+                          detail=f"{T.__name__} kids list mutated after construction changed the instance: {t!r}", case=wsrc)
+            for attr, bad in (("following", 42), ("following", "node"), ("following", [T(value=6)]), ("kids", [1, 2]), ("kids", [None]), ("kids", 7), ("following", ns["Node"](value=1))):
+                for how in ("updated", "constructed"):
+                    try:
+                        got = t.updated(**{attr: bad}) if how == "updated" else T(value=0, **{attr: bad})
+                        atk.R.monitor("updated", False, where={"has_mapping": False, "kind": "invalid-replacement-accepted", "declared": T.__name__, "how": how}, detail=f"{T.__name__}: {how} with {attr}={bad!r} was accepted -> {got!r}", case=wsrc)
+                    except Exception:  # noqa: BLE001
+                        atk.R.monitor("updated", True)
+            u = t.updated(kids=[T(value=8)], following=None)
+            atk.R.monitor("updated", u == T(value=1, kids=(T(value=8),)) and atk.snapshot(t) == snap, where={"has_mapping": False, "kind": "update-result-wrong", "unknown_names": False, "declared": T.__name__}, detail=f"{T.__name__}.updated(kids=[...], following=None) -> {u!r}, original {t!r}", case=wsrc)
         u = n.updated(next=None)
         atk.R.monitor("updated", u == Node(value=1) and n.next == Node(value=2), where={"has_mapping": False, "kind": "update-result-wrong", "unknown_names": False}, detail=f"Node.updated(next=None) -> {u!r}, original {n!r}", case={"source": "<fixed Node>"})
         try:
